@@ -77,6 +77,9 @@ FIXED = {
  "decrypting view answers reads beyond the 32-bit sector range": [
    ("C04", "a critical or ordinary read on a decrypted image at an offset just below 2^42 (2^31 sectors) made EncryptedISO.readAt call make() with a negative length: panic, whole server down (regression of the whole-sector rewrite, found by a sub-agent while writing property-preserving changes; the far-offset family was then added to C02/C04/C09/C10)", "process-died hostile-session READCRIT n=2048 off=13194139531263 on /PS3ISO/enc.iso; not-serving"),
    ("C10", "Read/ReadAt of the decrypting view far beyond the image: panic (makeslice / slice bounds) near 2^42 and 2^63, 'negative offset' errors instead of EOF, sector number wrapped above 2^43", "panic makeslice: len out of range; read past-end")],
+ "a directory is linked to its own record when a sibling file": [
+   ("C07", "a file and a sibling directory whose names differ only in case ('name' next to 'NAME/', both portable): in the primary hierarchy the directory's children were unreachable and the file record pointed at the directory extent (noticed by a sub-agent writing property-preserving generator changes; my trees used case-insensitively unique names; shapes file-dir-case / dir-file-case added first, C07 and C08 then fired)", "tree-mismatch shape:file-dir-case / dir-file-case / file-dir-case-ps3"),
+   ("C08", "same trees: directory record with extent length 0, path table pointing at a directory without '.'/'..', file extents overlapping", "V05/V06/V07/V08/V09 shape:file-dir-case")],
  "decrypt 3k3y also removes the watermark": [
    ("C20", "decrypt 3k3y output kept watermark+key with a cleared region table: placed under a served root it could not be opened (second transformation attempted)", "serve-back-failed 3k3y-from-PS3ISO / 3k3y-from-GAMES")],
 }
